@@ -20,7 +20,7 @@ import re
 from typing import Any, Dict, List, Optional, Set, Tuple
 
 from sa import regexlang, rst, sqlconc, sqlexpr, sqlx
-from sa.checks.c32 import decision_list, holds
+from sa.checks.c32 import _macro_channels, decision_list, guards_hold, holds
 from sa.core import AnalysisError, Finding, Program, Report, program, src, walk_no_nested
 from sa.e6 import ExternalObj, Interp, Raised
 
@@ -137,6 +137,7 @@ def run(rep: Report, tier: str) -> None:
         raise AnalysisError("anchor vanished: TIME_PERIOD_PATTERN")
     load_re = regexlang.compile_nfa(next(iter(pv)), "search")
     mapper = decision_list(P, P.func("vtlengine.duckdb_transpiler.io._execution._map_query_error"))
+    fetch_sql_arg = _macro_channels(P)[2]  # the statement text the fetch site hands to the mapper
     ncell = 0
     mism: Dict[str, Tuple] = {}
     for year in (2020, 2021):
@@ -163,7 +164,7 @@ def run(rep: Report, tier: str) -> None:
                         sq: Any = sqlconc.call_macro(macros, f"vtl_period_to_{fmt}", canon)
                     except sqlconc.SqlError as e:
                         txt = str(e).lower()
-                        claimed = next((code for c, cls, code, _ in mapper if holds(c, txt)), None)
+                        claimed = next((code for c, cls, code, _, gs in mapper if holds(c, txt) and guards_hold(P, gs, fetch_sql_arg)), None)
                         sq = ("raise", claimed)
                     except sqlexpr.ParseError as e:
                         raise AnalysisError(f"vtl_period_to_{fmt} not evaluable on {canon!r}: {e}")
